@@ -809,19 +809,38 @@ func localAllocFieldStore(u *ssa.UnOp, fa *ssa.FieldAddr) ssa.Value {
 		}
 		return false
 	}
-	escapes := func(e ssa.Instruction) bool { // may the escape at e happen before the load?
+	// reachAvoidingAlloc: is `to` reachable from the successors of `from`
+	// without passing through the allocation (every execution of the Alloc
+	// instruction yields a fresh object, so an escape in an earlier loop
+	// iteration concerns a different object)?
+	reachAvoidingAlloc := func(from, to *ssa.BasicBlock) bool {
+		if al.Block() == to {
+			return false // entering the load's block from the top re-executes the allocation first
+		}
+		seen := map[*ssa.BasicBlock]bool{}
+		work := append([]*ssa.BasicBlock{}, from.Succs...)
+		for len(work) > 0 {
+			b := work[len(work)-1]
+			work = work[:len(work)-1]
+			if seen[b] || b == al.Block() {
+				continue
+			}
+			seen[b] = true
+			if b == to {
+				return true
+			}
+			work = append(work, b.Succs...)
+		}
+		return false
+	}
+	escapes := func(e ssa.Instruction) bool { // may the escape at e happen before the load, on the same object?
 		if e.Block() == u.Block() {
 			if !after(e, u) {
 				return true
 			}
-			for _, s := range e.Block().Succs { // in a cycle
-				if reachable(s, e.Block()) {
-					return true
-				}
-			}
-			return false
+			return reachAvoidingAlloc(e.Block(), u.Block())
 		}
-		return reachable(e.Block(), u.Block())
+		return reachAvoidingAlloc(e.Block(), u.Block())
 	}
 	for _, ref := range *al.Referrers() {
 		switch x := ref.(type) {
